@@ -70,6 +70,23 @@ CLAIMED = {
     "C13": ("Coq proof: reflective enumeration of ALL fault sites x {one-off, persistent} of each menu scenario by the kernel, lifted to every k by run_fault_beyond (CrashFault.v, Fault13_*.v); P-trace/P-fault correspondence",
             "fault_safe for 77 scenarios x all sites x 2 modes except the 80 points of known13 (proved to fail: D10), one_off_all_pass, no_lock_left; implementation: OSError(EIO/ENOSPC/EACCES) injected at the same site, outcome/state/locks compared with run_fault, property oracle on the implementation.",
             "DESIGN.md section 6 C13", "faults are OSError raised at call entry of the failing operation; short writes / EINTR are not modelled"),
+    "C07": ("Coq proof: reflective exhaustive exploration of ALL schedules of every menu scenario by a proved explorer (explore_sound, Sched.v; scenario_sound, Lin.v), one vm_compute per scenario; P-sched correspondence under a controlled scheduler",
+            "lin_pairs: 330 pairs (5 start states x 66 unordered pairs of an 11-call menu) and 245 triples of short calls, every schedule, linearizable and stored-is-retrievable, except the 27 pairs of known07 which are each PROVED to fail "
+            "(D8 store vs removal of its content, D9 in-progress rejection caused by a delete; known findings); the model's witness schedule of every distinct outcome is replayed on the implementation (per-thread operation sequences, outcomes, files), "
+            "plus random schedules judged against the implementation's own sequential runs of every order.",
+            "DESIGN.md section 6 C07, 12.3", "preemption inside a single interposed operation, GIL switching; condition variables are modelled as 'acquire of a held identifier is not enabled' (DESIGN 12.2)"),
+    "C08": ("Coq proof: lock discipline of every API program as a weakest precondition over all answers (faults included), rank argument for deadlock freedom, well-founded termination (Bracket.v) - general, no menu; P-fault + P-sched correspondence",
+            "no_deadlock_no_leak / progress / gstep_terminates / runs_to_completion / afterwards_every_call_returns for any pool of calls, any schedule, any pattern of I/O failures (except a failing flock, covered by the C13 sweep); "
+            "implementation: every fault site of the C13 menu leaves the four lists empty and a follow-up call returns; schedules of C07/C12 scenarios and random 3-4 thread pools of mixed object/metadata calls complete with nothing locked.",
+            "DESIGN.md section 6 C08, 12.2", "a thread blocked inside the kernel, a dead Manager process; notify() is assumed to wake one waiter if there is one"),
+    "C12": ("Coq proof: reflective exhaustive exploration of all schedules of every metadata scenario by the proved explorer; reader clause as a separate boolean; P-sched correspondence",
+            "lin_pairs: 275 pairs and 414 triples from 5 start states, every schedule; the 9 pairs / 54 triples of known12 are exactly retrieve_metadata racing a delete (FileNotFoundError where the sequential run says ValueError - both 'not found'), "
+            "proved linearizable with the two classes identified (LinNF.v); reader never sees a partial document on ANY scenario; witness schedules replayed on the implementation, random schedules judged against its sequential runs.",
+            "DESIGN.md section 6 C12, 12.3", "a reader racing the bytes of one write(2); condition variables as for C07"),
+    "C16": ("Coq proof: mode selection and creation of the cross-process primitives (Config.v), plus the C05/C08 theorems of the single program model; P-seq and P-sched correspondence run through the multiprocessing code paths; forked-worker search",
+            "mode_of_env_iff, init_primitives; one model program per call for both modes, tied to BOTH textual copies of every synchronised section by running the call histories and the C07/C12 schedules in multiprocessing mode (three-way: threading, multiprocessing, model); "
+            "real forked workers contending on shared pids/cids: one winner per pid, no lost reference, lists empty.",
+            "DESIGN.md section 6 C16, 12.2", "multiprocessing.Lock/Condition, Manager().list() proxies and fork-safety are assumed; the stand-ins replace them in P-sched"),
 }
 
 REASON_PENDING = "check not yet registered in this snapshot: machinery under construction (see DESIGN.md section 11); not claimed until its check runs green on the unchanged tree"
